@@ -17,7 +17,7 @@ INSTALL_MONITORS = False
 RULE = ("cases = boundary catalogue (axes, quadrant boundaries with +-0.0 / 1e-17 / 1e-300 components, "
         "magnitudes 1e-290..1e290, integer coordinate arrays up to 4e9, angle triples 0/pi/2pi/negative/large, angles as "
         "Python numbers and as 0-d / integer arrays) + seeded random clouds, angle triples and "
-        "composites of 1-6 spheres (flat, nested two and three levels deep, RigidCluster, two-member CSG unions); non-trivial = case produced >=1 finite residual and "
+        "composites of 1-6 spheres (flat, nested two and three levels deep, RigidCluster, two-member CSG unions, alone and as members of rotated collections); every scalar/array pattern of a coordinate triple; non-trivial = case produced >=1 finite residual and "
         "is distinct after rounding its JSON to 6 significant digits")
 ASSUMPTIONS = ["numpy arctan2/sin/cos are correctly rounded to a few ulp",
                "magnitudes outside 1e-290..1e290 are out of bounds (products of coordinates and sines become subnormal / overflow)"]
